@@ -117,6 +117,17 @@ def rule_result_discipline(ctx, cfg, r):
                                 if (a[1] == "Ne" and v == 0) or (a[1] == "Eq" and v == 1):
                                     zero = True
                     if not zero:
+                        # however the test is spelled (`n != 0`, `n > 0 .. else if n < 0`, a match): the value set of the result
+                        # (or of its unwrapped form) on this path must be exactly {0}
+                        subjects = set()
+                        for a, s in row.atoms:
+                            for st in paths.subterms(a):
+                                if st and ((st[0] == "field" and paths.term_contains(st, lambda x: x == res)) or
+                                           (st[0] == "call" and st[1].endswith("unwrap_or") and st[2][0] == res)):
+                                    subjects.add(st)
+                        ok_disc = d.single() == 0 or any(st[0] == "call" for st in subjects)
+                        zero = ok_disc and any(vs(row, st).single() == 0 for st in subjects)
+                    if not zero:
                         good, why = False, "execution continues after flush_block without establishing result == 0: %s" % row.describe(20)
                         break
                     cont += 1
